@@ -353,7 +353,11 @@ theorem walk_default_eq_qualify_partial (env : Env) (S : String) (h : Plain S) (
     | insert _ _ _ _ _ _ => simp [hasQuery] at hs
     | ctas _ _ _ _ _ => simp [hasQuery] at hs
     | createView _ _ _ _ => simp [hasQuery] at hs
-    | insertValues tgt cols rows => simp only [qualifyStmt, ← mkTable_qName env S h]
+    | insertValues tgt cols rows =>
+      -- (second alternative: `Model/Stmt.lean` after `patches/Stmt-D8.patch`, where this branch is `writeTargetHolder`)
+      first
+        | (simp only [qualifyStmt, ← mkTable_qName env S h]; done)
+        | (simp only [qualifyStmt, writeTargetHolder, ← mkTable_qName env S h])
     | createTable tgt ine cols => simp only [qualifyStmt, ← mkTable_qName env S h]
     | createTableLike tgt src => simp only [qualifyStmt, ← mkTable_qName env S h]
     | update _ _ _ _ _ => simp only [qualifyStmt]
